@@ -34,6 +34,10 @@ pub enum IoAct {
     Interrupted,
     /// hard error
     Error,
+    /// the stream would block (non-blocking socket / pipe): ErrorKind::WouldBlock, a hard error for write_all
+    WouldBlock,
+    /// the stream accepts nothing: Ok(0) - write_all turns it into ErrorKind::WriteZero
+    Zero,
 }
 
 #[derive(Clone, Debug, Serialize, Deserialize, PartialEq)]
@@ -125,6 +129,8 @@ impl IoSink {
                 "short" => Some((i, IoAct::Short(e.taken))),
                 "eintr" => Some((i, IoAct::Interrupted)),
                 "error" => Some((i, IoAct::Error)),
+                "wouldblock" => Some((i, IoAct::WouldBlock)),
+                "zero" => Some((i, IoAct::Zero)),
                 _ => None,
             })
             .collect()
@@ -176,6 +182,14 @@ impl io::Write for IoSink {
             Some(IoAct::Error) => {
                 self.history.push(Event { len: buf.len(), taken: 0, ok: false, kind: "error" });
                 Err(io::Error::new(io::ErrorKind::Other, "injected"))
+            }
+            Some(IoAct::WouldBlock) => {
+                self.history.push(Event { len: buf.len(), taken: 0, ok: false, kind: "wouldblock" });
+                Err(io::Error::from(io::ErrorKind::WouldBlock))
+            }
+            Some(IoAct::Zero) => {
+                self.history.push(Event { len: buf.len(), taken: 0, ok: false, kind: "zero" });
+                Ok(0)
             }
         }
     }
